@@ -245,7 +245,7 @@ def program(scens, maker, extra_imports=()):
     """scens: list of tuples passed to maker(i, *tuple) -> (decl, body lines).  Returns (source, info) where
     info[i] = {"desc": tuple, "func": "s<i>", "lines": {line: role}} with roles ACC / G2 / other markers."""
     mechs = [s[0] for s in scens]
-    imps = sorted(set(needs_imports(mechs)) | set(extra_imports))
+    imps = sorted(set(needs_imports(mechs)) | set(extra_imports) | {"os", "strconv"})
     out = ["package main", ""]
     if imps:
         out.append("import (")
@@ -270,13 +270,25 @@ def program(scens, maker, extra_imports=()):
         out.append("}")
         out.append("")
         info[i] = {"desc": sc, "func": "s%d" % i, "lines": {}}
+    # main runs the scenarios from index os.Args[1] on (static calls, so that the call-site / go-callee contexts are the
+    # intended ones) and announces each on stderr: the runner restarts after a runtime `fatal error: concurrent map ...`
+    out.append("func begin(i int) { println(\"BEGIN\", i) }")
+    out.append("")
     out.append("func main() {")
+    out.append("\tfrom := 0")
+    out.append("\tif len(os.Args) > 1 {")
+    out.append("\t\tfrom, _ = strconv.Atoi(os.Args[1])")
+    out.append("\t}")
     for i, sc in enumerate(scens):
+        out.append("\tif from <= %d {" % i)
+        out.append("\t\tbegin(%d)" % i)
         if len(sc) > 3 and sc[3] == "go":
-            out.append("\tgo s%d()" % i)
-            out.append("\t<-fin")
+            out.append("\t\tgo s%d()" % i)
+            out.append("\t\t<-fin")
         else:
-            out.append("\ts%d()" % i)
+            out.append("\t\ts%d()" % i)
+        out.append("\t}")
+    out.append("\tprintln(\"ALLDONE\")")
     out.append("}")
     # line roles: a marker belongs to the scenario whose declarations/function contain it
     cur = None
@@ -347,7 +359,17 @@ TAINT_DECL = {"callee": "func setd@(o *T@, v string) { o.d = v }\n",
               "ifaceput": "type W@ interface{ Put(a, b *T@, v string) }\ntype w@ struct{}\nfunc (*w@) Put(a, b *T@, v string) { b.d = v }\n"}
 
 
+SPECIAL13_DIR = _os.path.join(_os.path.dirname(SPECIAL_DIR), "c13")
+
+
 def scenario_c13(i, mech, taint, tgt, entry="call"):
+    if mech == "special":
+        decl, body = load_specials(SPECIAL13_DIR)[taint]
+        decl = "type T@ struct{}\n\n" + decl
+        body = list(body)
+        if entry == "go":
+            body.append("fin <- true")
+        return _sub(decl, i), [_sub(l, i) for l in body]
     mdecl, share = MECHS[mech]
     pre, tsteps, reader = TAINTS[taint]
     decl = C13_COMMON.replace("READ", reader) + mdecl + TAINT_DECL.get(taint, "")
